@@ -229,9 +229,15 @@ def check_config(cfg, ops, tmp, ls):
     from ZConfig.components.logger import loghandler
     out = []
     # materialise file paths
+    shared_path = os.path.join(tmp, "log-shared.log")
+    nshare = [0]
     for sec in cfg:
         for i, h in enumerate(sec["handlers"]):
-            if h["path"] == "FILE":
+            if h["path"] == "FILE" and (h.get("share") or (nshare[0] == 0 and any(hh.get("share") for s2 in cfg for hh in s2["handlers"])
+                                                             and ref_handler(h) == "file")):
+                h["path_text"] = shared_path
+                nshare[0] += 1
+            elif h["path"] == "FILE":
                 h["path_text"] = os.path.join(tmp, "log-%s-%d.log" % (sec.get("name") or "root", i))
             elif h["path"] == "MISSINGDIR":
                 h["path_text"] = os.path.join(tmp, "later", "log-%s-%d.log" % (sec.get("name") or "root", i))
@@ -346,6 +352,8 @@ def check_config(cfg, ops, tmp, ls):
                     if os.path.abspath(h.baseFilename) != os.path.abspath(spec["path_text"]):
                         out.append(("wrong-handler-file", h.baseFilename))
                     live.append((h, spec))
+                    if os.path.abspath(h.baseFilename) in dropped:
+                        dropped.remove(os.path.abspath(h.baseFilename))     # the file has a live handler again
                     if kindh == "rotating" and (h.backupCount != int(spec["old-files"])):
                         out.append(("wrong-rotation-parameters", "backupCount %r" % h.backupCount))
                     if kindh == "timed" and (h.backupCount != int(spec["old-files"]) or h.when != spec["when"].upper()):
@@ -573,10 +581,10 @@ def gen_handler(rng):
         pass
     elif r < 0.6:
         h["max-size"] = rng.choice(["10kb", "1mb", "5"])
-        h["old-files"] = rng.choice(["1", "3"])
+        h["old-files"] = rng.choice(["1", "3", "3", "0"])
     elif r < 0.75:
         h["when"] = rng.choice(["D", "H", "midnight", "W0", "m"])
-        h["old-files"] = rng.choice(["1", "2"])
+        h["old-files"] = rng.choice(["1", "2", "2", "0"])
         if rng.random() < 0.5:
             h["interval"] = rng.choice(["1", "2"])
     elif r < 0.82:
@@ -633,6 +641,10 @@ def gen_config(rng, idx):
                 h2["arbitrary-fields"] = "false"
                 sec["handlers"].insert(sec["handlers"].index(h1) + 1, h2)
                 break
+    # two live handlers on one file (each is a handler of its own: reopened, closed, counted)
+    fileh = [h for sec in cfg for h in sec["handlers"] if h["path"] == "FILE" and ref_handler(h) == "file"]
+    if len(fileh) >= 2 and rng.random() < 0.5:
+        fileh[1]["share"] = True
     # a name on the section itself (the slot allows it) is not the name of the logger
     for j, sec in enumerate(cfg):
         if rng.random() < 0.3:
